@@ -202,6 +202,10 @@ def inspect_goals(ctx, rng):
         for n in ints + [Y]:
             G.append(T.Cm("arg", n, t, Z))
         G.append(T.Cm("arg", T.I(1), t, T.A("a")))
+    # partial lists with a given length (the tail must be closed / extended accordingly)
+    for pl_ in (T.L([T.A("a")], T.V(5)), T.L([T.A("a"), T.A("b")], T.V(5)), T.L([], T.V(5)) if False else T.V(5)):
+        for n in ints:
+            G.append(T.Cm("length", pl_, n))
     for nm in (T.A("f"), T.A("foo"), T.I(3)):
         for a in ints:
             G.append(T.Cm("functor", X, nm, a))
